@@ -344,6 +344,13 @@ func (fx *FnCtx) groundFacts(v Value) {
 			fx.assume(f)
 		}
 	}
+	for _, l := range v.L {
+		if l.hasBnd {
+			return
+		}
+	}
+	// slices held in memory have 0 <= len <= cap and bounded sizes
+	fx.sliceShape(v, v.T, 0, True)
 }
 
 func (fx *FnCtx) evalIdent(env *Env, x *SIdent) SV {
@@ -1318,6 +1325,32 @@ func (fx *FnCtx) loopEnv(li *loopInfo, st *State, phiVals map[*ssa.Phi]Value) *E
 			if phi.Comment == name {
 				if v, ok := phiVals[phi]; ok {
 					return SV{V: v}, true
+				}
+			}
+		}
+		// "for i := range s": at the loop head i denotes the index of the iteration about to run
+		// (the hidden range index + 1)
+		for _, ins := range li.header.Instrs {
+			phi, ok := ins.(*ssa.Phi)
+			if !ok {
+				break
+			}
+			if phi.Comment != "rangeindex" {
+				continue
+			}
+			pv, ok := phiVals[phi]
+			if !ok {
+				continue
+			}
+			for b := range li.blocks {
+				for _, in := range b.Instrs {
+					dr, ok := in.(*ssa.DebugRef)
+					if !ok || dr.IsAddr || dr.Object() == nil || dr.Object().Name() != name {
+						continue
+					}
+					if bo, ok := dr.X.(*ssa.BinOp); ok && bo.Op == token.ADD && bo.X == phi {
+						return SV{V: Value{T: phi.Type(), L: []*Term{fx.tc.IdxAdd(pv.L[0], fx.tc.IdxNum(1))}}}, true
+					}
 				}
 			}
 		}
